@@ -14,6 +14,8 @@ Inductive ob := oN | oS (k v : string) | oX (b : bool) (kv : option (string * st
 Inductive c02case :=
 | CMerged (cid : N) (children : list (list (string * string))) (ms : list mv) (obs : list ob)
 | CIndexed (cid : N) (blocks : list (string * list (string * string))) (ms : list mv) (obs : list ob)
+| CNested (cid : N) (nested : list (list (string * list (string * string))))
+          (children : list (list (string * string))) (ms : list mv) (obs : list ob)
 | CDBIter (cid : N) (entries : list (string * N * string)) (seq : N) (start limit : option string)
           (ms : list mv) (obs : list ob).
 
@@ -80,6 +82,29 @@ Definition run_case (x : c02case) : bool :=
       match x_run bytes bytes (list (bytes * bytes)) _ _
                   (cur_step f) cur_obs (fun d => (d, SOI)) (cur_step f) cur_obs
                   (S (S (List.length il))) (x_init (il, SOI)) (map dec_mv ms) with
+      | Some outs => obs_eq outs obs
+      | None => false
+      end
+  | CNested cid nested ch ms obs =>
+      (* merged over [indexed iterators ...] ++ [array iterators ...], as a DB's levels are *)
+      let f := cmp (cmp_of_id cid) in
+      let ils := map (map (fun b => (unhex (fst b), map dec_kv (snd b)))) nested in
+      let ls := map (map dec_kv) ch in
+      let fuel := S (S (fold_right Nat.max O (map (@List.length _) ils))) in
+      let istep := indexed_step bytes bytes (list (bytes * bytes)) _ _
+                     (cur_step f) cur_obs (fun d => (d, SOI)) (cur_step f) cur_obs fuel in
+      let nstep (c : xstate (list (bytes * list (bytes * bytes)) * pos) (list (bytes * bytes) * pos)
+                     + (list (bytes * bytes) * pos)) (m : move bytes) :=
+        match c with inl x => inl (istep x m) | inr y => inr (cur_step f y m) end in
+      let nobs (c : xstate (list (bytes * list (bytes * bytes)) * pos) (list (bytes * bytes) * pos)
+                    + (list (bytes * bytes) * pos)) :=
+        match c with inl x => x_kv bytes bytes _ _ cur_obs x | inr y => cur_obs y end in
+      forallb (fun il => sortedb f il && forallb (fun b => sortedb f (snd b)) il && index_okb f il) ils &&
+      forallb (sortedb f) ls &&
+      keys_disjointb f (map (fun il => List.concat (map snd il)) ils ++ ls) &&
+      match m_run bytes bytes _ nstep nobs (pop_scan bytes f)
+                  (m_init (map (fun il => inl (x_init (il, SOI))) ils ++ map (fun l => inr (l, SOI)) ls))
+                  (map dec_mv ms) with
       | Some outs => obs_eq outs obs
       | None => false
       end
